@@ -156,6 +156,7 @@ def roundtrip(acc, infos, ops, named, inp):
 def run_shard(shard, acc):
     monitors.install()
     rnd = random.Random(shard["seed"])
+    norm.SHUFFLE_COROUTINES[0] = random.Random(shard["seed"] ^ 77)
     if shard["kind"] == "random_ssb":
         # long routines with many labels (label tables, caches and counters have sizes)
         for ncases in (rnd.choice([130, 150, 200]), rnd.choice([300, 520])):
@@ -170,6 +171,14 @@ def run_shard(shard, acc):
         for i in range(shard["n"]):
             hostile = rnd.choice([0.0, 0.0, 0.3, 1.0])
             spec = random_ssb(rnd, hostile=hostile)
+            if i % 5 == 0 and len(spec["routines"]) > 1:
+                # coroutines between routines of the other kinds
+                for k, r in enumerate(spec["routines"]):
+                    if rnd.random() < 0.5:
+                        r["kind"], r["name"], r["target"] = "COROUTINE", f"CORO_{k}", None
+                    elif r["kind"] == "COROUTINE":
+                        r["kind"], r["name"], r["target"] = "GENERIC", None, None
+                acc.count("sets_mixing_coroutines_and_routines")
             infos, ops, named = norm.make_ops(spec)
             text = roundtrip(acc, infos, ops, named, {"spec": spec})
             nj = sum(1 for r in spec["routines"] for o in r["ops"] if o[1] in ("Jump", "Call") or o[1].startswith(("Branch", "Case")))
